@@ -134,6 +134,11 @@ def rng_vectors(tier):
                                 lq=lq, uq=3, llq=llq, lt=lt, luq=max(lt, n3) + 1))
                 out.append(base("spa", 1, 2, n3, 1, 1, 0.0, 0.0, twopl,
                                 lq=lq, uq=3, llq=llq, lt=lt, luq=max(lt, n3) + 1))
+    # tight lecturer capacity (full lecturer who already supervises the student)
+    for n1, n2, n3 in ((1, 2, 1), (2, 2, 1), (2, 3, 2), (1, 3, 1)):
+        for t1 in (0.0, 1.0):
+            out.append(base("spa", n1, n2, n3, 2, min(3, n2), t1, 0.0, True, uq=n2, luq=n3, lt=n3))
+            out.append(base("spa", n1, n2, n3, 2, 2, t1, 1.0, True, uq=n2 + 1, luq=n3 + 1, lt=1))
     # lower quotas together with ties on either side (weak stability + quotas)
     for t1, t2 in ((1.0, 0.0), (0.5, 0.0), (0.0, 1.0), (1.0, 1.0)):
         for lq in (1, 2):
